@@ -329,11 +329,37 @@ def _emit_fn(g, source, a, blocks, vacuity, probe_insert=None):
     it = source(f.file).find(f.item)
     f.orig = it.text
     rules = f.rules
-    sigtext = rewrite_sig(it.sig_text, rules, a.get("ret"))
+    sig_src, body_src = it.sig_text, it.body_text
+    fname = f.item.split("/")[-1].strip().replace("fn ", "").strip()
+    if a.get("async_block"):
+        # R11c: the n-th `async [move] { BODY }` block of the function is verified as the anonymous async fn it is:
+        # `async fn NAME(<captured variables, declared by the unit>) -> T { BODY }`.  BODY is the real text; a captured
+        # variable the unit did not declare (or declared with the wrong type) is a type error => exit 2.
+        from rsx import full_tokens as _ft, match_close as _mc3
+        btoks = _ft(it.body_text)
+        sig_i = [k for k, t in enumerate(btoks) if t.kind not in ("ws", "comment")]
+        want, seen, found = int(a["async_block"]), 0, None
+        for q, k in enumerate(sig_i):
+            if btoks[k].kind == "ident" and btoks[k].text == "async":
+                j = q + 1
+                if j < len(sig_i) and btoks[sig_i[j]].text == "move": j += 1
+                if j < len(sig_i) and btoks[sig_i[j]].text == "{":
+                    seen += 1
+                    if seen == want:
+                        found = (sig_i[j], _mc3(btoks, sig_i[j])); break
+        if not found:
+            raise ExtractError(f"anchor lost: async block {want} of {f.item} in {f.file}")
+        body_src = "".join(t.text for t in btoks[found[0]:found[1] + 1])
+        sig_src = a["block_sig"]
+        m = re.search(r"\bfn\s+(\w+)", sig_src)
+        fname = m.group(1)
+        rules.append(("R11c", f"async block {want} of `{f.item}` verified as `{norm(sig_src)}` (captured variables become parameters)"))
+    sigtext = rewrite_sig(sig_src, rules, a.get("ret"))
     if a.get("sig_from"):      # R8-style declared receiver changes: `sig_replace="&self=>&mut self"`
         pass
     # R4b: `Self::Assoc` in a trait-impl method signature is replaced by the `type Assoc = ..;` of that impl
-    for m in set(re.findall(r"\bSelf::([A-Z]\w*)", sigtext)):
+    for _round in range(3):        # an associated type may itself mention Self::Other
+      for m in sorted(set(re.findall(r"\bSelf::([A-Z]\w*)", sigtext))):
         parent = "/".join(f.item.split("/")[:-1]).strip()
         if parent:
             pit = source(f.file).find(parent)
@@ -348,8 +374,34 @@ def _emit_fn(g, source, a, blocks, vacuity, probe_insert=None):
                 raise ExtractError(f"anchor lost: signature text `{old}` in {f.name}")
             sigtext = _replace_norm(sigtext, old, new)
             rules.append(("R8", f"signature: {old.strip()} -> {new.strip()}"))
-    body = rewrite_body(it.body_text, rules, intended_panics=bool(a.get("intended_panics")))
+    body = rewrite_body(body_src, rules, intended_panics=bool(a.get("intended_panics")))
     body = apply_r9(body, rules)
+    if a.get("str_lits"):
+        # R15b: a string literal used as a value (not the message of `.expect(..)`) becomes `vstr_lit("..")`, an
+        # opaque `&Str` of the unit's stand-in string type: its content is not modelled
+        tk = tokenize(body)
+        sigk = [k for k, t in enumerate(tk) if t.kind not in ("ws", "comment")]
+        outp = []
+        pos = {k: q for q, k in enumerate(sigk)}
+        n_l = 0
+        for k, t in enumerate(tk):
+            if t.kind == "str" and t.text.startswith('"'):
+                q = pos[k]
+                prev2 = [tk[sigk[q - 1]].text if q >= 1 else "", tk[sigk[q - 2]].text if q >= 2 else ""]
+                if not (prev2[0] == "(" and prev2[1] in ("expect", "unreachable", "panic")):
+                    outp.append("vstr_lit(" + t.text + ")"); n_l += 1
+                    continue
+            outp.append(t.text)
+        if n_l:
+            body = "".join(outp)
+            rules.append(("R15b", f"{n_l} string literal(s) -> vstr_lit(..) (opaque &Str)"))
+    if a.get("async_block_call"):
+        # R11b': the (one) async block of this function is verified separately as an async fn (R11c); here the block
+        # becomes a CALL of that fn with the captured variables -- calling an async fn builds the same future
+        if body.count("vasync_block()") != 1:
+            raise ExtractError(f"anchor lost: exactly one async block expected in {f.name}")
+        body = body.replace("vasync_block()", a["async_block_call"])
+        rules.append(("R11b", f"the async block is replaced by a call of its R11c fn: `{a['async_block_call']}`"))
     if a.get("trace_awaits"):
         from rsx import trace_awaits as _ta
         body = _ta(body, rules)
@@ -373,6 +425,16 @@ def _emit_fn(g, source, a, blocks, vacuity, probe_insert=None):
                         after = [j for j in range(cpar + 1, len(tk)) if tk[j].kind not in ("ws", "comment")]
                         if after and tk[after[0]].text == "|":
                             pend = nxt.index(after[0])
+                cty = a["closure_ty"]
+                if ";;" in cty:
+                    # one type per closure, in source order; `-` leaves that closure un-annotated
+                    ctys = cty.split(";;")
+                    seen_cl = getattr(f, "_cl_seen", 0)
+                    if pend is not None and len(nxt) > pend + 1 and tk[nxt[pend + 1]].text != "->":
+                        f._cl_seen = seen_cl + 1
+                        cty = ctys[seen_cl].strip() if seen_cl < len(ctys) else "-"
+                        if cty == "-":
+                            outp.append(t.text); k += 1; continue
                 if pend is not None and len(nxt) > pend + 1 and tk[nxt[pend + 1]].text != "->":
                     params = "".join(("_unused" if (x.kind == "ident" and x.text == "_") else x.text) for x in tk[nxt[0]:nxt[pend]]).strip()
                     open_idx = max(j for j in range(k) if tk[j].text == "(" and tk[j] is prev[-1])
@@ -383,11 +445,20 @@ def _emit_fn(g, source, a, blocks, vacuity, probe_insert=None):
                         if ";" in inner or not expr.rstrip().endswith("}"):
                             outp.append(t.text); k += 1; continue
                         expr = inner
+                    if "@@" in cty:
+                        # R18b: the unit supplies the closure's postcondition (the body calls exec functions, so
+                        # `o == EXPR` is not a specification); the body is unchanged and is verified against it
+                        cty, cens = cty.split("@@", 1)
+                        outp.append(f"|{params}| -> (o: {cty.strip()}) ensures {cens.strip()} {{ {expr} }}")
+                        rules.append(("R18b", f"closure `|{params}| {expr}` annotated with the unit's `ensures {cens.strip()}`"))
+                        k = close_idx
+                        hit += 1
+                        continue
                     if params.startswith("("):
                         # Verus closures take plain variables only: destructure inside
-                        outp.append(f"|r18_p| -> (o: {a['closure_ty']}) ensures ({{ let {params} = r18_p; o == {expr} }}) {{ let {params} = r18_p; {expr} }}")
+                        outp.append(f"|r18_p| -> (o: {cty}) ensures ({{ let {params} = r18_p; o == {expr} }}) {{ let {params} = r18_p; {expr} }}")
                     else:
-                        outp.append(f"|{params}| -> (o: {a['closure_ty']}) ensures o == {expr} {{ {expr} }}")
+                        outp.append(f"|{params}| -> (o: {cty}) ensures o == {expr} {{ {expr} }}")
                     rules.append(("R18", f"closure `|{params}| {expr}` annotated with `ensures o == {expr}`"))
                     k = close_idx
                     hit += 1
@@ -513,6 +584,13 @@ def _emit_fn(g, source, a, blocks, vacuity, probe_insert=None):
                 body = insert_after_pattern(body, ia["alt_before"], txt, f.name, before=True)
             else:
                 raise
+    # closures without a specification: Verus treats their result as unconstrained, so a NEW one can turn a correct
+    # edit into a failed obligation.  The unit declares how many each function has (`closures=N`, default 0); more than
+    # that is an unsupported construct (exit 2), never a violation.
+    n_plain = _count_plain_closures(body)
+    f.plain_closures = n_plain
+    if n_plain > int(a.get("closures", 0)):
+        raise ExtractError(f"unsupported construct: {n_plain} closure(s) without a specification in {f.name} (the unit declares {a.get('closures', 0)})")
     loops = {n: "\n".join(v) for n, v in blocks["loops"].items()}
     body = insert_loop_specs(body, loops, f.name)
     spec = "\n".join(blocks["spec"])
@@ -531,7 +609,6 @@ def _emit_fn(g, source, a, blocks, vacuity, probe_insert=None):
         # R22: Verus does not carry an async fn's `&mut` postconditions across `.await` in its caller.  The caller's
         # `X.f(..).await` is (declared //@replace) turned into a call of `f__awaited`: a body-less twin with THIS
         # function's contract, i.e. the usual modular rule "awaiting an async fn runs it to completion" (A-AWAIT).
-        fname = f.item.split("/")[-1].strip().replace("fn ", "").strip()
         if not re.search(r"\basync\s+fn\s+%s\b" % re.escape(fname), sigtext):
             raise ExtractError(f"anchor lost: `async fn {fname}` in {f.name}")
         sig3 = re.sub(r"\basync\s+fn\s+%s\b" % re.escape(fname), "fn " + fname + "__awaited", sigtext, count=1)
@@ -549,7 +626,6 @@ def _emit_fn(g, source, a, blocks, vacuity, probe_insert=None):
         parts.append("    ensures false,")
         cs = [c for (k, c, _) in cl if k == "decreases"]
         if cs: parts.append("    decreases " + ", ".join(cs) + ",")
-        fname = f.item.split("/")[-1].strip().replace("fn ", "").strip()
         sig2 = re.sub(r"\bfn\s+%s\b" % re.escape(fname), "fn reach__" + fname, sigtext, count=1)
         r = Fn()
         r.name = f.name; r.kind = "reach"; r.props = f.props; r.has_requires = True
@@ -565,6 +641,27 @@ def _emit_fn(g, source, a, blocks, vacuity, probe_insert=None):
         for l in body.split("\n"): g.lines.append(l)
         r.last = len(g.lines)
         g.reach.append(r)
+
+
+def _count_plain_closures(body):
+    tk = [t for t in tokenize(body) if t.kind not in ("ws", "comment")]
+    n = 0
+    k = 0
+    while k < len(tk):
+        t = tk[k]
+        if t.text in ("|", "||") and k >= 1 and tk[k - 1].text in ("(", ",", "=", "move", "return", "{", ";"):
+            if t.text == "||":
+                close = k
+            else:
+                close = k + 1
+                while close < len(tk) and tk[close].text != "|":
+                    close += 1
+            if close + 1 < len(tk) and tk[close + 1].text != "->":
+                n += 1
+            k = close + 1
+            continue
+        k += 1
+    return n
 
 
 def _publicise(txt, rl):
